@@ -407,6 +407,10 @@ def rule_forwarding(ck: Check, repo: Repo) -> None:
     if sorted(set(mapped)) != ["files"] or len(mapped) < 2:
         r.violation("reuse.report._generate_file_reports", "mapped collection",
                     f"the container is mapped over {mapped}, expected `files` on both branches", repo.loc(gfr))
+    all_paths_rules(r, repo, ck)
+
+
+def all_paths_rules(r, repo: Repo, ck: Check) -> None:
     # annotate --recursive expands only through Project.all_files() walked from the project root
     ap = repo.func("reuse.cli.annotate.all_paths")
     ck.analysed_fn("reuse.cli.annotate.all_paths")
